@@ -78,7 +78,9 @@ def run_env(extra=None):
 def ensure_build(targets=()):
     """(Re)build the hooks-enabled tree from /repo's current working tree (incremental)."""
     os.makedirs(WORK, exist_ok=True)
-    with open(os.path.join(WORK, "build.lock"), "w") as lk:
+    # one lock per build directory (a mutant worktree built elsewhere must not block the checks of the real tree)
+    lock = os.path.join(WORK, "build.lock") if BUILD == os.path.join(WORK, "build") else BUILD.rstrip("/") + ".lock"
+    with open(lock, "w") as lk:
         fcntl.flock(lk, fcntl.LOCK_EX)
         if not os.path.exists(os.path.join(BUILD, "build.ninja")):
             sh(["cmake", "-S", REPO, "-B", BUILD] + CMAKE_ARGS, check=True, timeout=600)
